@@ -49,13 +49,14 @@ theorem C08_playback_own (cfg : Cfg) (ids : List Id) (beh : Id → Beh) :
   cases hb : beh i <;> simp [verdictAlone, inner, post, outerFailure] <;>
     (repeat' split) <;> simp <;> intro h <;> exact h.symm
 
-/-- A failure while replaying, extracting or comparing - a hung or crashed worker included - is a framework-failure
+/-- A failure while replaying, extracting or comparing - a hung or crashed worker, a result the parent cannot read back
+included - is a framework-failure
 verdict for that recording. -/
 theorem C08_failure_verdict (cfg : Cfg) (id : Id) (b : Beh)
     (hb : (∃ m, b = .playerRaises m) ∨ (∃ m, b = .extractorRaises m) ∨ (∃ m, b = .comparatorRaises m) ∨
-      b = .workerExits ∨ b = .hang ∨ ∃ s m, b = .late s m) :
+      b = .workerExits ∨ b = .hang ∨ (∃ s m, b = .late s m) ∨ ∃ s m e, b = .unreadable s m e) :
     (verdictAlone cfg (id, b)).status = .equalizerFailure := by
-  rcases hb with ⟨m, rfl⟩ | ⟨m, rfl⟩ | ⟨m, rfl⟩ | rfl | rfl | ⟨s, m, rfl⟩ <;>
+  rcases hb with ⟨m, rfl⟩ | ⟨m, rfl⟩ | ⟨m, rfl⟩ | rfl | rfl | ⟨s, m, rfl⟩ | ⟨s, m, e, rfl⟩ <;>
     simp [verdictAlone, inner, post, outerFailure] <;> (repeat' split) <;> rfl
 
 /-- … for that recording only: changing what happens to recording `j` changes no other comparison. -/
